@@ -71,6 +71,7 @@ static Json genC05(const std::string &prop, uint64_t seed, const std::string &ti
     tunables(r, g);
     g.maxConns = 4; g.maxShapes = tier == "thorough" ? 10 : 8;
     if (r.chance(0.4)) g.edgeLines = 0.4;      // end points on the lines of shape sides
+    { Rng r2(Rng::mix(r.s, "scan-companion-cfg")); if (r2.chance(0.35)) g.scanCompanion = 0.5; }      // see SceneGen::addConn
     // configuration changed on the live router: the segment penalty is set anew between transactions (6 % of the edits); every
     // orthogonal connector is then re-routed, and the reference model prices bends with the value in force
     g.wMove = 54;
